@@ -33,18 +33,18 @@ func models(run *report.Run) []*explore.Model {
 		}
 		return q
 	}
-	ntes := pick(3, 4)
+	ntes := pick(4, 4)
 	ms := []*explore.Model{
 		{Name: "vlan", Config: fmt.Sprintf("S100-101 C10-11 ntes=%d", ntes), New: func() explore.System { return newVlanSys(ntes) },
-			Depth: pick(4, 6), NoDedupDepth: pick(3, 3), Classify: classify, Budget: 8 * time.Minute},
+			Depth: pick(5, 7), NoDedupDepth: pick(3, 3), Classify: classify, Budget: 8 * time.Minute},
 		{Name: "qinq", Config: "6 pairs x 3 subscribers", New: func() explore.System { return newQinqSys() },
 			Depth: pick(5, 8), NoDedupDepth: pick(2, 3), Classify: classify, Budget: 5 * time.Minute},
 		{Name: "pppoe", Config: "start=1 macs=A,B creates<=4", New: func() explore.System { return newPppoeSys(1, 4) },
-			Depth: pick(6, 8), Exec: bubble, Classify: classify, Budget: 5 * time.Minute},
+			Depth: pick(6, 9), Exec: bubble, Classify: classify, Budget: 5 * time.Minute},
 		{Name: "pppoe", Config: "start=65534 macs=A,B creates<=4", New: func() explore.System { return newPppoeSys(65534, 4) },
-			Depth: pick(6, 8), Exec: bubble, Classify: classify, Budget: 5 * time.Minute},
+			Depth: pick(6, 9), Exec: bubble, Classify: classify, Budget: 5 * time.Minute},
 	}
-	ms = append(ms, idxModels(pick(5, 7))...)
+	ms = append(ms, idxModels(pick(5, 8), pick(2, 3))...)
 	return ms
 }
 
@@ -135,7 +135,7 @@ func classify(v *report.Violation) {
 	// labels (NOT known findings)
 	case part == "vlan" && v.Site == "AllocateWithSTag" && v.Kind == "range" && strings.HasSuffix(last, ",99)"):
 		v.Class = "fix:C20-F1 AllocateWithSTag accepts an S-TAG outside the range"
-	case part == "vlan" && v.Site == "LoadFromStore":
+	case part == "vlan" && v.Site == "LoadFromStore" && (v.Kind == "unique" || v.Kind == "range" || v.Kind == "reverse"):
 		v.Class = "fix:C20-F2 LoadFromStore installs stored pairs unchecked"
 	case part == "index" && strings.Contains(v.Config, "MemoryAllocationStore") && v.Kind == "reverse-stale" && v.Site == "Update/byIP":
 		v.Class = "fix:C20-F3 SaveAllocation keeps the old by-IP entry"
